@@ -433,7 +433,7 @@ class PEventListenerDispatcher(PDispatcher):
                     process.event = None
                     return
 
-            else:
+            if self.resultlen is not None:
                 needed = self.resultlen - len(self.result)
 
                 if needed:
